@@ -4553,6 +4553,168 @@ def rule_workvec_defined(ck, solvers):
 
 
 # -------------------------------------------------------------------------------------------------
+# E8: the recurrence does not depend on defect bookkeeping that the protocol may leave unrefreshed
+# -------------------------------------------------------------------------------------------------
+
+def skippable_protocol_fields(facts):
+    """{update function: fields of IterativeSolver whose refresh that function may skip} - a field written on some but not all
+    paths of _set_new_defect / _update_defect (the norm computation under `calc_def`), and fields assigned from such a field"""
+    out = {}
+    for name, npar in (("_set_new_defect", 2), ("_update_defect", 1)):
+        fns = base_functions(facts, name, npar)
+        if not fns:
+            continue
+        ps = Paths(fns[0], methods=inlinable_methods(facts, fns[0]))
+        if ps.problems or not ps.paths:
+            out[name] = None
+            continue
+        written = [{e[0].rstrip("=+-*/") for e in p["eff"] if re.match(r"^_\w+=", e[0])} for p in ps.paths]
+        allw = set().union(*written)
+        skip = {f for f in allw if any(f not in w for w in written)}
+        changed = True
+        while changed:
+            changed = False
+            for p in ps.paths:
+                for lhs, val in p["eff"]:
+                    f = lhs.rstrip("=+-*/")
+                    if lhs.endswith("=") and f not in skip and any(re.search(r"(?<![\w$])%s(?![\w])" % re.escape(x), val or "") for x in skip):
+                        skip.add(f)
+                        changed = True
+        out[name] = skip
+    return out
+
+
+def rule_recurrence_sources(ck, solvers, facts):
+    """taint analysis: values read from protocol fields whose refresh may be skipped must not reach the vector recurrences"""
+    skips = skippable_protocol_fields(facts)
+    for sc in sorted(SOLVERS):
+        members = solvers.get(sc, {})
+        fns = members.get("_apply_intern", [])
+        if not fns:
+            ck.incomplete("E8.recurrence-sources", "anchor %s::_apply_intern not instantiated" % sc)
+            continue
+        fn = fns[0]
+        methods = {}
+        for mname, mfl in members.items():
+            cand = [f for f in mfl if f.cls == fn.cls and f.cfg is not None and not f.d.get("ctor")]
+            if cand and mname not in ("apply", "correct", "init_symbolic", "done_symbolic", "init_numeric", "done_numeric"):
+                methods[mname] = cand[0]
+        # the functions of the solve and the update functions they call
+        units, todo = [], [fn]
+        while todo:
+            f = todo.pop()
+            if any(f is u for u in units) or len(units) > 12:
+                continue
+            units.append(f)
+            for c in f.calls():
+                if c.get("k") == "MCall" and (c.get("obj") is None or c["obj"].get("k") == "This") and cname(c) in methods and cname(c) != "_apply_intern":
+                    todo.append(methods[cname(c)])
+        sources = set()
+        unknown = False
+        for u in units:
+            for c in u.calls():
+                if cname(c) in skips and (c.get("obj") is None or c["obj"].get("k") == "This"):
+                    if skips[cname(c)] is None:
+                        unknown = True
+                    else:
+                        sources |= skips[cname(c)]
+        if unknown:
+            ck.incomplete("E8.recurrence-sources", "%s: the paths of the defect-update functions could not be enumerated" % sc)
+            continue
+        key = "%s::_apply_intern" % sc
+        if not sources:
+            ck.ob("E8.recurrence-sources", key, True, "the defect updates this solver calls refresh every field they write on every path", fn.file, fn.line)
+            continue
+        # fixpoint: tainted locals (decl ids), tainted members / containers of *this (objkey base), tainted helper parameters
+        t_loc, t_fld, t_prm, t_ret = {}, {}, {}, {}
+        sinks = []
+
+        def tainted(u, lo, e):
+            for x in walk(e):
+                if x.get("k") == "Member" and x.get("field") and (x.get("b") is None or x["b"].get("k") == "This"):
+                    if x["n"] in sources:
+                        return "%s (line %s)" % (x["n"], x.get("l"))
+                    if "this." + x["n"] in t_fld:
+                        return t_fld["this." + x["n"]]
+                elif x.get("k") == "Ref" and x.get("d") in t_loc:
+                    return t_loc[x["d"]]
+                elif x.get("k") == "Ref" and x.get("dk") == "param" and (u.full, x.get("d")) in t_prm:
+                    return t_prm[(u.full, x["d"])]
+                elif x.get("k") == "MCall" and (x.get("obj") is None or x["obj"].get("k") == "This") and cname(x) in t_ret:
+                    return t_ret[cname(x)]
+            return None
+        for _round in range(12):
+            before = (len(t_loc), len(t_fld), len(t_prm), len(t_ret), len(sinks))
+            for u in units:
+                lo = Locals(u)
+                probe = DefinedFlow.__new__(DefinedFlow)
+                probe.fn, probe.lo = u, lo
+                for n in u.nodes():
+                    k = n.get("k")
+                    if k == "Var" and n.get("init") is not None:
+                        o = tainted(u, lo, n["init"])
+                        if o and n["d"] not in t_loc:
+                            t_loc[n["d"]] = o
+                    elif k == "Assign" or (k == "OpCall" and as_assign(n) is not None):
+                        l, r = (n["lhs"], n["rhs"]) if k == "Assign" else as_assign(n)
+                        o = tainted(u, lo, r)
+                        if not o:
+                            continue
+                        l = strip(l)
+                        if l.get("k") == "Ref" and l.get("dk") == "local":
+                            t_loc.setdefault(l["d"], o)
+                        elif l.get("k") == "Ref" and l.get("dk") == "param":
+                            t_prm.setdefault((u.full, l["d"]), o)
+                        else:
+                            kk = base_key(objkey(lo, l))
+                            if kk.startswith("this.") and kk[5:] not in sources and not re.match(r"^this\._(def_|num_|status)", kk):
+                                t_fld.setdefault(kk, o)          # (writes into the protocol's own fields are bookkeeping, not recurrence)
+                    elif k == "Return" and n.get("e") is not None:
+                        o = tainted(u, lo, n["e"])
+                        if o:
+                            t_ret.setdefault(u.name, o)
+                    elif k == "MCall":
+                        nm = cname(n)
+                        obj = n.get("obj")
+                        own = obj is None or obj.get("k") == "This"
+                        if own and nm in methods and methods[nm] is not u:
+                            for prm, a in zip(methods[nm].params, n.get("a", [])):
+                                o = tainted(u, lo, a)
+                                if o:
+                                    t_prm.setdefault((methods[nm].full, prm["d"]), o)
+                            continue
+                        if own:
+                            continue          # protocol calls (is_converged, _plot_iter_line, _update_defect, ...) consume bookkeeping legitimately
+                        recv_vec = probe.vkey(obj) is not None
+                        ty = (u.ntype(lo.resolve(obj)) or "").strip()
+                        if recv_vec and re.match(r"^(const )?std::vector\b", ty):
+                            recv_vec = False
+                        if re.match(r"^(const )?std::vector\b", ty) or "std::vector" in ty:
+                            if nm in ("push_back", "emplace_back", "assign", "resize") and any(tainted(u, lo, a) for a in n.get("a", [])):
+                                kk = base_key(objkey(lo, obj))
+                                if kk.startswith("this."):
+                                    t_fld.setdefault(kk, [tainted(u, lo, a) for a in n.get("a", []) if tainted(u, lo, a)][0])
+                            continue
+                        is_matrix = nm == "apply" and "r" in n.get("pn", [])
+                        if (recv_vec and not n.get("cconst")) or is_matrix:
+                            for a in n.get("a", []):
+                                if probe.vkey(a) is not None:
+                                    continue
+                                o = tainted(u, lo, a)
+                                if o:
+                                    rec = (u.name, n.get("l"), render(n)[:70], o)
+                                    if rec not in sinks:
+                                        sinks.append(rec)
+            if (len(t_loc), len(t_fld), len(t_prm), len(t_ret), len(sinks)) == before:
+                break
+        ck.ob("E8.recurrence-sources", key, not sinks,
+              ("[%s] %s() line %s `%s` computes with a value that stems from %s: %s belongs to the convergence control, and the defect update this solver calls (_set_new_defect) is allowed to skip its "
+               "refresh (skip_defect_calc with min_iter >= max_iter, no plotting, no stagnation check). With such settings the recurrence works with a stale norm: the same number of iterations gives a "
+               "different iterate depending only on min_iter" % (short_inst(fn), sinks[0][0], sinks[0][1], sinks[0][2], sinks[0][3], "/".join(sorted(sources)))) if sinks
+              else "no value read from %s reaches a vector operation (reads only feed the protocol itself / plotting)" % "/".join(sorted(sources)), fn.file, sinks[0][1] if sinks else fn.line)
+
+
+# -------------------------------------------------------------------------------------------------
 # E7: the vector whose norm is reported as the defect is filtered after its last unfiltered contribution
 # -------------------------------------------------------------------------------------------------
 
@@ -5222,6 +5384,13 @@ RULES = [
      "guarded by the derived member's own state (e.g. `if(X.empty())`), done_numeric() must release X on every path; own helpers that read the matrix are "
      "followed (their result and the members they derive are matrix-derived). Broken => history: init(); solve; "
      "done_numeric(); matrix values updated in place; init_numeric(); solve — the solver iterates with data of the old matrix."),
+    ("E8.recurrence-sources", 16,
+     "taint analysis of _apply_intern and its helpers: fields of the convergence control whose refresh a defect-update function may skip (computed from the "
+     "paths of IterativeSolver::_set_new_defect/_update_defect: _def_cur is written only under `calc_def`, _def_prev is copied from it) are sources for every solver that "
+     "calls that function; a tainted value - through locals, helper parameters / results, scalar members and std::vector members - must not be a scalar operand of a "
+     "vector operation (axpy/scale/format/... or the matrix application). Feeding the protocol itself (is_converged, _def_prev, plotting) is allowed. Broken => "
+     "settings min_iter >= max_iter with skip_defect_calc (the default), no plotting, no stagnation check: the recurrence uses a stale norm, the N-th iterate differs "
+     "from the one of the same method run with min_iter = 0."),
     ("E8.workvec-defined", 16,
      "must-analysis over apply()/correct() and, entered with what they define, over _apply_intern and its helpers, on the first pass through the iteration (back "
      "edges removed, every loop body taken once, _num_iter propagated as a constant so that first-iteration branches are decided): every vector member (containers "
@@ -5392,6 +5561,7 @@ def run(tier):
     rule_iterate_additive(ck, solvers)
     rule_defect_filtered(ck, solvers, facts)
     rule_workvec_defined(ck, solvers)
+    rule_recurrence_sources(ck, solvers, facts)
     rule_validity_flags(ck, solvers)
     rule_step_counters(ck, solvers)
     ck.assume("comparisons are over a total order (a<b == !(b<=a)): NaN defects are excluded by the isfinite tests that the decision tables show to come first")
